@@ -3,11 +3,14 @@
 A  design check: TLC explores the API machine of tla/JID.tla (Parse, New, With*, Bare, Domain over
    an abstract alphabet of representatives, strict and lenient treatment of unmodelled parts) and
    checks the C11_* invariants; the reference functions are checked to be closed (a claimed
-   canonical form is itself claimed canonical).  The code-like deviation TrailingDotOnce must
+   canonical form is itself claimed canonical).  A second run explores the machine over the A-label
+   family (labels with the ACE prefix in every case variant, decodable or not, in every position of a
+   name and in every part).  The code-like deviations TrailingDotOnce and AcePrefixCaseSensitive must
    violate the invariants (non-vacuity).
 B  TLC writes the vectors: every string up to length 4 over 19 symbols with its split, accept class
    (ok / bad / free) and, only where RFC 7622 / PRECIS / IDNA mandate it, the canonical string;
-   part triples, replacements on valid bases, Equal pairs; the rune pool of the law-only corpus.
+   part triples, replacements on valid bases, Equal pairs; the IP-literal and A-label families; the
+   rune pool and the ACE prefixes / Punycode tails of the law-only corpus.
 C  harness/cmd/jidcanon runs the exported API of mellium.im/xmpp/jid on every vector and on a seeded
    corpus, compares with the expectations, evaluates the C11 laws on every address returned, and
    records the observations of a seeded sample, which TLC validates against tla/TrJID.tla."""
@@ -24,8 +27,8 @@ CONSTS = '''CONSTANTS
 '''
 
 MC_CFG = '''CONSTANTS
-  ParseStrs <- MCParseStrs
-  Parts <- MCParts
+  ParseStrs <- %(strs)s
+  Parts <- %(parts)s
   ParseLen = %(parselen)d
   LawLen = %(lawlen)d
   PartSyms = %(partsyms)s
@@ -38,6 +41,7 @@ CHECK_DEADLOCK FALSE
 EMIT_CFG = CONSTS + '''  ParseLen = %(parselen)d
   SubLen = %(sublen)d
   IPLen = %(iplen)d
+  ACELen = %(acelen)d
   PartLen = %(partlen)d
 INIT Init
 NEXT Next
@@ -62,21 +66,32 @@ ALL_SYMS = "{1, 2, 3, 4, 5, 6, 7, 8, 9, 10, 11, 12, 13, 14, 15, 16, 17, 18, 19}"
 
 
 def design_check(ctx, quick):
+    main = dict(strs="MCParseStrs", parts="MCParts")
     if ctx.replay:
-        cfg = MC_CFG % dict(parselen=1, lawlen=2, partsyms=QUICK_SYMS, dev="{}")
+        cfg = MC_CFG % dict(main, parselen=1, lawlen=2, partsyms=QUICK_SYMS, dev="{}")
     elif quick:
-        cfg = MC_CFG % dict(parselen=2, lawlen=3, partsyms=QUICK_SYMS, dev="{}")
+        cfg = MC_CFG % dict(main, parselen=2, lawlen=3, partsyms=QUICK_SYMS, dev="{}")
     else:
-        cfg = MC_CFG % dict(parselen=2, lawlen=4, partsyms=ALL_SYMS, dev="{}")
-    mc = ctx.model_check("MCJID", cfg, PROPS, workers=4 if quick else 8, timeout=2400)
-    r = ctx.tlc("MCJID", MC_CFG % dict(parselen=2, lawlen=1, partsyms="{1, 5}", dev='{"TrailingDotOnce"}'),
+        cfg = MC_CFG % dict(main, parselen=2, lawlen=4, partsyms=ALL_SYMS, dev="{}")
+    # the A-label family has a run of its own (the reachable addresses are roughly ParseStrs x Parts x Parts)
+    ace = dict(strs="ACEParse", parts="ACEMCParts", parselen=1, lawlen=1, partsyms="{1}")
+    acebg = jc.Background(lambda: ctx.model_check("MCJID", MC_CFG % dict(ace, dev="{}"), PROPS, workers=2, timeout=2400, name="MCJIDAce", heap=jc.heap(ctx)))
+    try:
+        mc = ctx.model_check("MCJID", cfg, PROPS, workers=3 if quick else 8, timeout=2400, heap=jc.heap(ctx))
+    finally:
+        mc_ace = acebg.result()
+    mc.ace = mc_ace
+    r = ctx.tlc("MCJID", MC_CFG % dict(main, parselen=2, lawlen=1, partsyms="{1, 5}", dev='{"TrailingDotOnce"}'),
                 workers=1, timeout=300, name="MCJIDDev")
     if "Inv" not in r.violated:
         raise verif.Undecided("design self-test: deviation TrailingDotOnce does not violate the invariants:\n" + r.out[-1500:])
+    r = ctx.tlc("MCJID", MC_CFG % dict(ace, dev='{"AcePrefixCaseSensitive"}'), workers=1, timeout=300, name="MCJIDDevAce")
+    if "Inv" not in r.violated:
+        raise verif.Undecided("design self-test: deviation AcePrefixCaseSensitive does not violate the invariants:\n" + r.out[-1500:])
     # value layer (JIDStore.tla): packed representation with shared buffers; every address handed out is immutable
     st = ctx.model_check("MCJIDStore", STORE_CFG % dict(maxops=2 if ctx.replay else (3 if quick else 4), emitlen=0,
                                                          props="INVARIANT SInv\nPROPERTY C11_Immutable"),
-                         STORE_PROPS, workers=4, timeout=1200)
+                         STORE_PROPS, workers=4, timeout=1200, heap=jc.heap(ctx))
     for dev in ("AppendInPlace", "ReplaceInPlace"):
         r = ctx.tlc("MCJIDStore", (STORE_CFG % dict(maxops=2, emitlen=0, props="PROPERTY C11_Immutable")).replace("Dev = {}", 'Dev = {"%s"}' % dev),
                     workers=1, timeout=300, name="MCJIDStoreDev" + dev)
@@ -212,10 +227,12 @@ def run(ctx):
     quick = ctx.tier == "quick"
     mcbg = jc.Background(lambda: design_check(ctx, quick))
     try:
-        files, er = jc.emit(ctx, "EmitJID", EMIT_CFG % dict(parselen=4, sublen=0 if quick or ctx.replay else 5, iplen=3 if ctx.replay else (4 if quick else 5), partlen=2), FILES,
+        pbg = jc.Background(lambda: jc.emit(ctx, "MCJIDStore", STORE_CFG % dict(maxops=0, emitlen=2 if ctx.replay else 3, props=""),
+                                            ["progs.ndjson"], timeout=1200))
+        files, er = jc.emit(ctx, "EmitJID", EMIT_CFG % dict(parselen=4, sublen=0 if quick or ctx.replay else 5, iplen=3 if ctx.replay else (4 if quick else 5),
+                                                       acelen=2 if ctx.replay else (3 if quick else 4), partlen=2), FILES,
                             timeout=1200)
-        pf, pr = jc.emit(ctx, "MCJIDStore", STORE_CFG % dict(maxops=0, emitlen=2 if ctx.replay else 3, props=""),
-                         ["progs.ndjson"], timeout=1200)
+        pf, pr = pbg.result()
         files.update(pf)
         nvec = sum(sum(1 for _ in open(files[f])) for f in FILES[:4] + ["progs.ndjson"])
         ctx.log("TLC emitted %d vectors in %.1fs" % (nvec, er.wall))
@@ -242,24 +259,31 @@ def run(ctx):
         report(ctx, summ, trace, rejected)
         nself = 0
         if not ctx.replay:
-            nself = selftest_vectors(ctx, files) + selftest_traces(ctx, trace, rejected)
+            # the violations found on the real code are already recorded (report() above) and decide the verdict: a
+            # self-test that cannot be carried out on a tree that breaks the very cases it uses must not mask them
+            try:
+                nself = selftest_vectors(ctx, files) + selftest_traces(ctx, trace, rejected)
+            except verif.Undecided as e:
+                if not ctx.violations:
+                    raise
+                ctx.log("binding self-test inconclusive on a tree with violations (verdict unaffected): %s" % str(e)[:300])
     finally:
         mc = mcbg.result()
     ctx.write_evidence("model_checking", {
-        "states": mc.distinct + mc.store.distinct, "transitions": mc.generated + mc.store.generated,
-        "design_check_runs": {"MCJID": mc.distinct, "MCJIDStore": mc.store.distinct},
+        "states": mc.distinct + mc.ace.distinct + mc.store.distinct, "transitions": mc.generated + mc.ace.generated + mc.store.generated,
+        "design_check_runs": {"MCJID": mc.distinct, "MCJIDAce": mc.ace.distinct, "MCJIDStore": mc.store.distinct},
         "traces_validated_against_impl": summ["traces"], "trace_events": summ["events"], "trace_states": tr.distinct,
         "vectors": nvec, "evaluations": summ["evaluations"], "cases_by_kind": x.get("cases_by_kind"),
         "addresses_returned_and_checked": x.get("addresses_returned"),
         "distinct_nontrivial": summ["distinct"], "findings": x["finding_total"], "finding_kinds": x.get("finding_kinds"),
         "rejected_traces": len(rejected), "binding_selftest_mutants_rejected": nself,
         "valid_addresses_rejected": x.get("ok_class_rejected"), "valid_addresses": x.get("ok_class"),
-        "exhaustive": "every string of length <= 4 over 19 representative symbols, <= %d over 10 of them (+ runs of 1022/1023/1024 letters in each part); all part triples with parts <= 2 over {a,A,@,/,.} and <= 1 over all symbols; replacements of each part of 6 valid bases by every part of length <= 2; Equal on all pairs of 22 valid strings over {a,@,/}" % (4 if quick else 5),
+        "exhaustive": "every string of length <= 4 over 19 representative symbols, <= %d over 10 of them (+ runs of 1022/1023/1024 letters in each part); all part triples with parts <= 2 over {a,A,@,/,.} and <= 1 over all symbols; replacements of each part of 6 valid bases by every part of length <= 2; Equal on all pairs of 22 valid strings over {a,@,/}; IP-literal family; A-label family: the A-label xn--tda with its prefix / Punycode digits in every case variant (XN--, Xn--, xN--, xn--TDA) and 4 labels that only carry the prefix (undecodable, decoding to a mapped character, to ASCII, bare prefix) alone and as first / middle / last of up to 3 labels next to ASCII labels, U-labels and one another, with 0-2 final label separators, as domainpart of Parse / New / WithDomain and inside localparts and resourceparts, plus every string of <= %d symbols over that alphabet" % (4 if quick else 5, 3 if quick else 4),
         "value_layer": "JIDStore.tla: programs of <= %d operations (Bare, Domain, Copy, WithLocal / WithDomain / WithResource with 4 parts, on ANY address handed out so far) from 3 bases over the packed representation with shared buffers (design check); every program of <= 3 operations emitted by TLC plus seeded random programs of 6 operations run on the real package, all addresses handed out re-read after every operation (C11_Immutable), TLC validates the observations; deviations AppendInPlace / ReplaceInPlace shown to violate C11_Immutable" % (3 if quick else 4),
-        "design_check": "MCJID: API machine (Parse, New, WithLocal/WithDomain/WithResource, Bare, Domain), strict and lenient treatment of unmodelled parts; closure of the reference functions; deviation TrailingDotOnce shown to violate the invariants",
-        "rule": "a case is one vector or one corpus string/triple (distinct by content); every address returned without error is checked against all six laws; a trace is the observation record of one case",
+        "design_check": "MCJID: API machine (Parse, New, WithLocal/WithDomain/WithResource, Bare, Domain), strict and lenient treatment of unmodelled parts; closure of the reference functions; second run MCJIDAce over the A-label family (218 address strings x 12 parts); deviations TrailingDotOnce and AcePrefixCaseSensitive (ASCII fast path that looks for the ACE prefix before lower-casing) shown to violate the invariants",
+        "rule": "a case is one vector or one corpus string/triple (distinct by content); every address returned without error is checked against all six laws (idempotence of Parse, agreement of the constructors ...) whatever label classes it was built from - A-labels in any case variant of the ACE prefix included; a trace is the observation record of one case",
         "samples": summ["samples"][:2] + summ["mismatches"][:1],
     }, assumptions=[
-        "a canonical form is claimed only for the representatives (ASCII letters, fullwidth A, e+U+0301, U+00FC, the A-label xn--tda, IP literals, dots / U+3002 as final label separator); elsewhere only the laws are evaluated",
+        "a canonical form is claimed only for the representatives (ASCII letters, fullwidth A, e+U+0301, U+00FC, the A-label xn--tda in every case variant of its prefix and digits (RFC 5890 2.3.2.1: the prefix is case independent; RFC 5895: upper case is mapped first), IP literals, dots / U+3002 as final label separator); elsewhere - in particular for labels that carry the ACE prefix without being the A-label of a U-label - only the laws are evaluated",
         "rejections of addresses the RFCs make valid are outside C11 and only counted",
-        "the PRECIS and IDNA tables of golang.org/x/text and x/net are not modelled; the seeded corpus (fixed rune pool) samples them"])
+        "the PRECIS and IDNA tables of golang.org/x/text and x/net are not modelled; the seeded corpus (fixed rune pool; labels composed of 8 spellings of the ACE prefix and 35 Punycode tails) samples them"])
